@@ -2,10 +2,10 @@
 # usage: confirm_seeded.sh <ID> [m1 m2 ...]  — re-confirm agent mutations in a fresh scratch worktree of /repo HEAD
 # (suite passes with the mutation; demo fails with it and passes without). Results: <out>/m<i>/confirm.log
 ID=$1; shift
-OUT=/tmp/wt/$ID-out
+OUT=/tmp/wt/$ID${SUF:-}-out
 MS=${@:-$(cd $OUT && ls -d m* 2>/dev/null)}
-WT=/tmp/wt/confirm-$ID
-TGT=/tmp/wt/confirm-target-$ID
+WT=/tmp/wt/confirm-$ID${SUF:-}
+TGT=/tmp/wt/confirm-target-$ID${SUF:-}
 git -C /repo worktree remove --force $WT >/dev/null 2>&1
 git -C /repo worktree add --detach $WT HEAD >/dev/null 2>&1 || { echo "cannot create worktree"; exit 2; }
 for m in $MS; do
